@@ -1,0 +1,19 @@
+//go:build verif
+// +build verif
+
+package graph
+
+import "github.com/hashicorp/go-argmapper/internal/veriford"
+
+// verifPerm is called by instrumented copies of the sources (build tag
+// "verif", generated at check time) around calls that return vertices in
+// map iteration order. It permutes the slice deterministically and records
+// the resulting order of vertex ids.
+func verifPerm(site string, vs []Vertex) []Vertex {
+	veriford.Perm(site, len(vs),
+		func(i int) interface{} { return hashcode(vs[i]) },
+		func(i, j int) { vs[i], vs[j] = vs[j], vs[i] })
+	return vs
+}
+
+var _ = verifPerm
